@@ -30,7 +30,7 @@ func TestMain(m *testing.M) { os.Exit(evid.Main(m)) }
 var ev = evid.For(prop)
 
 func init() {
-	ev.SetRule("cases = scenarios in a synctest bubble with virtual time: 1-4 query events on 1-3 resources (own group or a shared group; model or collection), duration 1-5 virtual seconds, query requests (valid / empty query / no payload / malformed JSON) delivered at drawn instants relative to expiry including after qexpire.enter and after qexpire.drained, callback behaviours (model, collection, events, error, not-found, invalid-query, timeout+reply, panics, nothing, reply twice), injected inbox subscription failures, schedules drawn over the gates qexpire.*, qlistener.msg, runWith.checked, cb.mid; a scenario is non-trivial when >=1 query request was delivered after qexpire.enter or within the last virtual millisecond before expiry, or >=2 query events were alive on one group; distinct = hash of the scenario. A free-running variant on an embedded nats-server checks subscription and goroutine release.")
+	ev.SetRule("cases = scenarios in a synctest bubble with virtual time: 1-4 query events on 1-3 resources (own group or a shared group; model or collection), duration 1-5 virtual seconds, query requests (valid / empty query / no payload / malformed JSON) delivered at drawn instants relative to expiry including after qexpire.enter and after qexpire.drained, callback behaviours (model, collection, events, error, not-found, invalid-query, timeout+reply, panics, nothing, reply twice), injected inbox subscription failures, schedules drawn over the gates qexpire.*, qlistener.msg, runWith.checked, cb.mid; a scenario is non-trivial when >=1 query request was delivered after qexpire.enter or within the last virtual millisecond before expiry, or >=2 query events were alive on one group; distinct = hash of the scenario. A free-running variant on an embedded nats-server checks subscription and goroutine release. One of the resources is Parallel (serialization and nil-last not claimed). Restart scenarios (second test): 0-3 query events in a first Serve cycle, Shutdown after 0-4 s, 0-5 s stopped, optional duration change, second cycle with 0-3 query events and requests; non-trivial when a query event was still active at Shutdown or the duration changed.")
 	ev.Assume("a query request delivered after expiry was requested may be answered or ignored, but its callback must never run after the nil call")
 }
 
